@@ -31,7 +31,6 @@ pub fn compare_with_model(ctx: &Ctx, prop: &str, case: Case, st: &mut Stats) -> 
     let detail = |case: &Case, model: &ModelRun, extra: serde_json::Value| {
         json!({"case": run::case_json(case), "expected_text": clip(&model.out, 4000), "expected_error": format!("{:?}", model.err), "info": extra})
     };
-    let mut used_k2 = false;
     let verdict: Result<(), (String, serde_json::Value)> = (|| {
         match (&actual, &model.err) {
             (Ok((ppt, defs)), None) => {
@@ -51,35 +50,44 @@ pub fn compare_with_model(ctx: &Ctx, prop: &str, case: Case, st: &mut Stats) -> 
         }
     })();
     if let Err((msg, extra)) = verdict {
-        // re-judge with exactly the listed deviations enabled
-        if case.k2_sites > 0 && ctx.findings.is_known(prop, "K2") {
-            let m2 = run::run_model(&case, Flags { dev_elsif_uses_opening_name: true, ..Flags::default() });
+        // re-judge with exactly the listed deviations enabled: every non-empty combination of the listed
+        // findings whose trigger is present in this case, smallest first
+        let k2 = case.k2_sites > 0 && ctx.findings.is_known(prop, "K2");
+        let k6 = ctx.findings.is_known(prop, "K6");
+        let mut combos: Vec<(bool, bool)> = Vec::new();
+        if k2 {
+            combos.push((true, false));
+        }
+        if k6 {
+            combos.push((false, true));
+        }
+        if k2 && k6 {
+            combos.push((true, true));
+        }
+        let mut explained = false;
+        for (a, b) in combos {
+            let m2 = run::run_model(&case, Flags { dev_elsif_uses_opening_name: a, dev_bodyless_drops_parens: b, ..Flags::default() });
+            if b && m2.stats.bodyless_with_parens == 0 {
+                continue;
+            }
             let ok = match (&actual, &m2.err) {
                 (Ok((ppt, defs)), None) => run::compare_tokens(&m2.out, ppt.text()).is_ok() && run::compare_tables(&m2.table, defs).is_ok(),
                 (Err(e), Some(x)) => run::error_matches(x, e),
                 _ => false,
             };
             if ok {
-                st.known("K2");
-                used_k2 = true;
+                if a {
+                    st.known("K2");
+                }
+                if b {
+                    st.known("K6");
+                }
                 model = m2;
+                explained = true;
+                break;
             }
         }
-        let mut used_k6 = false;
-        if !used_k2 && model.stats.bodyless_with_parens > 0 && ctx.findings.is_known(prop, "K6") {
-            let m2 = run::run_model(&case, Flags { dev_bodyless_drops_parens: true, ..Flags::default() });
-            let ok = match (&actual, &m2.err) {
-                (Ok((ppt, defs)), None) => run::compare_tokens(&m2.out, ppt.text()).is_ok() && run::compare_tables(&m2.table, defs).is_ok(),
-                (Err(e), Some(x)) => run::error_matches(x, e),
-                _ => false,
-            };
-            if ok {
-                st.known("K6");
-                used_k6 = true;
-                model = m2;
-            }
-        }
-        if !used_k2 && !used_k6 {
+        if !explained {
             return Err(Fail::new(msg, detail(&case, &model, extra)));
         }
     }
